@@ -296,8 +296,16 @@ fn run_case(seed: u64, idx: u64, _tier: Tier, out: &mut CaseOut) {
             expected_inline(&nodes, &spec, &mut expected, false);
             // an element that contributes nothing at all (no content, empty affixes)
             // leaves two collapsible spaces next to each other, or one at an edge
+            let expected_raw = expected.clone();
             let expected = expected.split(' ').filter(|x| !x.is_empty()).collect::<Vec<_>>().join(" ");
-            let doc = vec![El::with("p", nodes).node()];
+            // the same run inside <pre> (single spaces, one line): affixes are drawn there too
+            let in_pre = rng.chance(1, 5);
+            if in_pre {
+                out.inc("affix_docs_in_pre");
+            }
+            // (inside <pre> every space of the source is kept)
+            let expected = if in_pre { expected_raw.trim_end_matches(' ').to_string() } else { expected };
+            let doc = vec![El::with(if in_pre { "pre" } else { "p" }, nodes).node()];
             let input = ast::serialize(&doc, &mut Fmt::canonical());
             let mut cfg = Cfg::new(Deco::Custom(spec.clone()));
             cfg.footnotes = Some(false);
